@@ -89,7 +89,7 @@ func sameOut(a, b []pktT) bool {
 // stripFlush removes an in-order prefix of the PONGs that may still be flushed after a failed key exchange.
 func stripFlush(out []pktT, fl flushT) []pktT {
 	k := 0
-	for k < len(out) && k < fl.N && out[k] == (pktT{T: "pong", A: strconv.Itoa(fl.From + k + 1)}) {
+	for k < len(out) && k < fl.N && out[k] == (pktT{T: "pong", I: fl.From + k + 1}) {
 		k++
 	}
 	return out[k:]
@@ -521,6 +521,9 @@ func runChildren(t *testing.T, out *vutil.Out, childTest string, ncases int, cas
 			var cs any
 			if r.Case < len(cases) {
 				cs = cases[r.Case]
+				if r.Mismatch != nil && r.Mismatch.Kind == "stall" && !explained(cases[r.Case], r.Sig) {
+					r.Sig += ":outside-the-known-conditions"
+				}
 			}
 			sigCount[r.Sig]++
 			if sigCount[r.Sig] <= 3 {
@@ -549,6 +552,45 @@ func runChildren(t *testing.T, out *vutil.Out, childTest string, ncases int, cas
 	}
 	out.Extra["histories_that_took_the_other_allowed_outcome"] = diverted
 	out.Extra["violation_signatures"] = sigCount
+}
+
+// explained: the specification's AsIs twin (the two stalls K1 / K2 of the implementation, see SSHPrelude.tla)
+// predicts a stall for this history: a burst of more than chanSize packets behind a packet that ends the
+// connection (K2), or at least maxPendingPackets + chanSize + 2 PINGs while the library waits for the peer's
+// KEXINIT (K1).  Any other stall keeps a signature of its own.
+func explained(raw json.RawMessage, sig string) bool {
+	var c caseT
+	if json.Unmarshal(raw, &c) != nil {
+		return false
+	}
+	window, inWindow := 0, false
+	k1, k2 := false, false
+	for _, st := range c.Steps {
+		switch st.Ev.K {
+		case "burst":
+			if st.Ev.N > 16 {
+				k2 = true
+			}
+		case "ping":
+			if inWindow {
+				window += st.Ev.N
+			}
+		case "newkeys":
+			inWindow, window = false, 0
+		}
+		for _, o := range st.Out {
+			if o.T == "kexinit" && o.A == "" && st.Ev.K == "greq0" {
+				inWindow, window = true, 0
+			}
+		}
+		if window >= 64+16+2 {
+			k1 = true
+		}
+	}
+	if strings.Contains(sig, "stall:rekey:") {
+		return k1
+	}
+	return k2
 }
 
 func TestReplay(t *testing.T) {
